@@ -63,6 +63,10 @@ def run_entry(profile, features, entry, repo=None):
         records.extend(loop_entry(I, entry))
     elif entry == "stamp":
         records.extend(stamp_entry(I))
+    elif entry == "ctor":
+        records.extend(ctor_entry(I))
+    elif entry == "access":
+        records.extend(access_entry(I))
     elif entry == "iters":
         from . import itertables
         records.extend(itertables.iters_entry(I))
@@ -187,6 +191,131 @@ def stamp_entry(I):
     for (s1, k1, v1, m1) in _stage(I, [st], NID + "is_removed", lambda s: [idv, driver.arena_ref(False)], None):
         recs.append({"entry": "stamp", "table": "NodeId::is_removed(stale)", "exit": k1, "value": v1.b if k1 == "return" else None,
                      "cmp": [list(map(str, k)) for k, v in s1.cmp.items()], "msg": m1})
+    return recs
+
+
+def ctor_entry(I):
+    """C13: constructors, clear and the capacity functions as values: every field of Arena is reported."""
+    recs = []
+    AR = "crate::arena::Arena<T>::"
+    adt = I.prog.adts[ARENA]
+    fields = [f["name"] for f in adt["variants"][0]["fields"]]
+
+    def show(st, v):
+        v = I.force(st, v)
+        if isinstance(v, VVec):
+            ln = st.meta.get("vecs", {}).get(v.id)
+            return "Vec(len=%r)" % (ln,) if ln is not None else "Vec(%s)" % v.id
+        return repr(v)
+    for name, key, args in (("new", AR + "new", lambda s: []), ("default", "<crate::arena::Arena<T> as core::default::Default>::default", lambda s: []),
+                            ("with_capacity", AR + "with_capacity", lambda s: [VInt(Lin(0, ("n",), 1), 64, False)])):
+        st = State()
+        st.bounds[("n",)] = (0, ISIZE_MAX)
+        for (s1, k1, v1, m1) in _stage(I, [st], key, args, None):
+            rec = {"entry": "ctor", "table": name, "exit": k1, "msg": m1, "adt_fields": fields}
+            if k1 == "return" and isinstance(v1, VStruct):
+                rec["fields"] = {n: show(s1, x) for n, x in v1.fields}
+                rec["events"] = [list(map(str, e)) for e in s1.events]
+            recs.append(rec)
+    # clear from an arbitrary J-state: value of every field afterwards
+    st = State()
+    for (s1, k1, v1, m1) in _stage(I, [st], AR + "clear", lambda s: [driver.arena_ref()], None):
+        rec = {"entry": "ctor", "table": "clear", "exit": k1, "msg": m1, "adt_fields": fields}
+        if k1 == "return":
+            fl = {}
+            for n in fields:
+                if n == "nodes":
+                    fl[n] = "Vec(len=%r)" % (s1.len,)
+                else:
+                    v = I.read_arena(s1, n)
+                    fl[n] = repr(v) if not isinstance(v, VLazy) else "unchanged(%s)" % n
+            rec["fields"] = fl
+            rec["events"] = [list(map(str, e)) for e in s1.events]
+        recs.append(rec)
+    for name in ("reserve", "capacity"):
+        st = State()
+        args = (lambda s: [driver.arena_ref(), VInt(Lin(0, ("k",), 1), 64, False)]) if name == "reserve" else (lambda s: [driver.arena_ref(False)])
+        for (s1, k1, v1, m1) in _stage(I, [st], AR + name, args, None):
+            recs.append({"entry": "ctor", "table": name, "exit": k1, "msg": m1, "value": repr(v1) if v1 is not None else None,
+                         "events": [list(map(str, e)) for e in s1.events], "len_changed": s1.len != s1.len0,
+                         "arena_writes": sorted(s1.arena_cur)})
+    # Node::get / get_mut address the payload of the same node
+    for name in ("get", "get_mut"):
+        st = State()
+        x = st.new_node(True, "arg:node")
+        for (s1, k1, v1, m1) in _stage(I, [st], "crate::node::Node<T>::" + name, lambda s: [VRef(("node", x), (), name == "get_mut")], None):
+            r = I.force(s1, v1) if k1 == "return" else None
+            recs.append({"entry": "ctor", "table": "Node::" + name, "exit": k1, "msg": m1, "node": x,
+                         "result": [r.root[1] if r.root[0] == "node" else str(r.root), [str(p[1]) for p in r.path]] if isinstance(r, VRef) else repr(r),
+                         "writes": len([e for e in s1.events if e[0] == "write"])})
+    return recs
+
+
+def access_entry(I):
+    """C11: lookup paths.  Argument cases: id of a live slot, id of a removed slot, id/position beyond the end; a node inside / outside the arena."""
+    recs = []
+    AR = "crate::arena::Arena<T>::"
+
+    def oob_id(st):
+        st.bounds[("oob",)] = (0, ISIZE_MAX)
+        return VStruct(NODEID, (("index1", VNonZero(Lin(1, ("oob",), 1))), ("stamp", VStruct(STAMP, (("0", VInt(Lin(0), 16, True)),)))))
+
+    def describe(view, v):
+        st = view.st
+        v = view.I.force(st, v)
+        if isinstance(v, VEnum) and v.adt == OPTION:
+            return None if v.variant == "None" else ["Some", describe(view, v.get("0"))]
+        if isinstance(v, VRef) and v.root[0] == "node" and not v.path:
+            return ["node", v.root[1]]
+        if isinstance(v, VStruct) and v.adt == NODEID:
+            n = st.node_of_id(v)
+            same_stamp = n is not None and models.values_equal(view.I, st, v.get("stamp"), view.I.read_node_field(st, n, "stamp"))
+            return ["id", n, "current-stamp" if same_stamp else "other-stamp"]
+        if isinstance(v, VBool):
+            return v.b
+        if isinstance(v, VInt):
+            return ["int", repr(v.t)]
+        if isinstance(v, VNonZero):
+            return ["nz", repr(v.t)]
+        return repr(v)
+
+    def go(table, case, key, st, args):
+        for (s1, k1, v1, m1) in _stage(I, [st], key, args, None):
+            view = spec.View(I, s1)
+            rec = {"entry": "access", "table": table, "case": case, "exit": k1, "msg": m1}
+            if k1 == "return":
+                rec["result"] = describe(view, v1)
+                rec["writes"] = len([e for e in s1.events if e[0] in ("write", "write-arena", "push", "clear")])
+            recs.append(rec)
+
+    for case in ("live", "removed", "oob"):
+        st = State()
+        if case == "oob":
+            idf = lambda s: oob_id(s)
+            x = None
+        else:
+            x = st.new_node(case == "live", "arg:id")
+            idf = lambda s, x=x: driver.arg_id(s, x)
+        go("Arena::get", [case, x], AR + "get", st, lambda s: [driver.arena_ref(False), idf(s)])
+        go("Arena::get_mut", [case, x], AR + "get_mut", st, lambda s: [driver.arena_ref(True), idf(s)])
+        go("Arena::index", [case, x], "<crate::arena::Arena<T> as core::ops::index::Index<crate::id::NodeId>>::index", st, lambda s: [driver.arena_ref(False), idf(s)])
+        go("Arena::index_mut", [case, x], "<crate::arena::Arena<T> as core::ops::index::IndexMut<crate::id::NodeId>>::index_mut", st, lambda s: [driver.arena_ref(True), idf(s)])
+        go("usize::from", [case, x], "<usize as core::convert::From<crate::id::NodeId>>::from", st, lambda s: [idf(s)])
+        go("NonZeroUsize::from", [case, x], "<core::num::nonzero::NonZero<usize> as core::convert::From<crate::id::NodeId>>::from", st, lambda s: [idf(s)])
+        # get_node_id_at(position of the id)
+        go("Arena::get_node_id_at", [case, x], AR + "get_node_id_at", st, lambda s: [driver.arena_ref(False), idf(s).get("index1")])
+    for case in ("live-slot", "removed-slot", "foreign"):
+        st = State()
+        if case == "foreign":
+            ref = VRef(("foreign", "node of another arena"), (), False)
+            x = None
+        else:
+            x = st.new_node(case == "live-slot", "arg:node")
+            ref = VRef(("node", x), (), False)
+        go("Arena::get_node_id", [case, x], AR + "get_node_id", st, lambda s: [driver.arena_ref(False), ref])
+    st = State()
+    go("Arena::count", ["any"], AR + "count", st, lambda s: [driver.arena_ref(False)])
+    go("Arena::is_empty", ["any"], AR + "is_empty", st, lambda s: [driver.arena_ref(False)])
     return recs
 
 
@@ -420,6 +549,8 @@ def base_record(I, entry, t):
     rec["heap"] = driver.heap_table(st)
     rec["writes"] = [e for e in st.events if e[0] in ("write", "write-arena", "push", "clear")][:40]
     rec["summaries"] = [list(map(str, s)) for s in st.meta.get("summaries", ())]
+    rec["payload_writes"] = sorted({(e[1], e[2], e[4]) for e in st.events if e[0] == "write" and e[2] in ("data", "stamp")})
+    rec["payload_drops"] = [(e[1], e[2]) for e in st.events if e[0] == "drop-data"]
     if t.kind == "panic":
         rec["frames"] = [f.fnkey for f in st.frames]
     return rec, view
